@@ -931,7 +931,8 @@ impl ActTask for Arc<Task> {
             self.update_data(&ctx.vars());
             ctx.emit_task(self)?;
 
-            if !is_next && !ctx.task().is_event_processed() {
+            // a hook act reports back like any other task: its parent may be waiting for it
+            if !is_next {
                 let parent = ctx.task().parent();
                 if let Some(task) = &parent.clone() {
                     task.review(ctx)?;
@@ -943,9 +944,6 @@ impl ActTask for Arc<Task> {
     }
 
     fn review(&self, ctx: &Context) -> Result<bool> {
-        if ctx.task().is_event_processed() {
-            return Ok(false);
-        }
         // last task's outputs
         // update prev outputs to current task
         let outputs = ctx.task().outputs();
